@@ -23,20 +23,20 @@ Definition run_heff (c : cmdk) (arg : N) (sel : option (N * bool)) (s : unit) : 
 
 (* one step: connection, command, argument (8*target + expected handler result), login name/password, observed answer *)
 Record rstep := mkStep { s_sid : N; s_cmd : cmdk; s_arg : N; s_name : N; s_pass : N; s_obs : res }.
-Record case := mkCase { c_id : nat; c_creds : list (N * (list N * N)); c_steps : list rstep }.
+Record case := mkCase { c_id : N; c_creds : list (N * (list N * N)); c_steps : list rstep }.
 
 Definition ev_of (s : rstep) : event := mkEv (s_sid s) (s_cmd s) (s_arg s) (s_name s) (s_pass s) 0.
 
 (* the selection the model tracks uses the raw argument of SELECT/EXAMINE; only its presence matters to the gate *)
-Fixpoint check (creds : list (N * (list N * N))) (g : gstate unit) (l : list rstep) (i : nat) : list nat :=
+Fixpoint check (creds : list (N * (list N * N))) (g : gstate unit) (l : list rstep) (i : N) : list N :=
   match l with
   | [] => []
   | s :: t =>
       let '(g', r, _) := step unit run_hres run_heff creds 0 g (ev_of s) in
-      if res_eqb r (s_obs s) then check creds g' t (S i) else i :: check creds g' t (S i)
+      if res_eqb r (s_obs s) then check creds g' t (i + 1) else i :: check creds g' t (i + 1)
   end.
 
-Definition case_bad (c : case) : list nat :=
-  map (fun i => (c_id c * 1000 + i)%nat) (check (c_creds c) (init unit (fun _ => tt)) (c_steps c) 0).
+Definition case_bad (c : case) : list N :=
+  map (fun i => c_id c * 1000 + i) (check (c_creds c) (init unit (fun _ => tt)) (c_steps c) 0).
 
-Definition mismatches (cs : list case) : list nat := flat_map case_bad cs.
+Definition mismatches (cs : list case) : list N := flat_map case_bad cs.
